@@ -83,6 +83,7 @@
 #include "evfilt.h"
 /* for user/group mappings */
 #include "nummapstr.h"
+#include "dt-strpf.h"
 
 #if defined __INTEL_COMPILER
 # define auto	static
@@ -1080,9 +1081,17 @@ END:VTODO\n";
 	}
 
 	with (echs_idiff_t d = t->dur) {
-		const int s = d.d / 1000U + !!(d.d % 1000U);
+		char stmp[32U];
+		size_t n;
 
-		rc -= fdprintf("DURATION:%d\n", s) < 0;
+		/* whole seconds, rounded up */
+		d.d += (1000 - d.d % 1000) % 1000;
+		if (d.d <= 0) {
+			/* no limit */
+			break;
+		}
+		n = idiff_strf(stmp, sizeof(stmp), d);
+		rc -= fdprintf("DURATION:%.*s\n", (int)n, stmp) < 0;
 	}
 	with (unsigned int um = 0066U) {
 		if (t->t->umsk < 0777U) {
